@@ -3,10 +3,12 @@
 import glob, json, os
 root = os.path.join(os.path.dirname(os.path.abspath(__file__)), '..')
 props = [json.loads(l) for l in open(os.path.join(root, 'properties.jsonl'))]
+# only properties listed in checks/enabled.txt (maintained by the coordinator once a check is green) are claimed
+enabled = set(open(os.path.join(root, 'checks', 'enabled.txt')).read().split())
 cfgs = {}
 for f in sorted(glob.glob(os.path.join(root, 'checks', 'C*.json'))):
     c = json.load(open(f))
-    if c.get('enabled', True):
+    if c['id'] in enabled:
         cfgs[c['id']] = c
 na_reasons = {}
 p = os.path.join(root, 'checks', 'not_applicable.json')
